@@ -26,7 +26,7 @@ def exec_history(spec, want_state=False, timeout=900.0):
 def refs_for(spec):
     refs = {}
     for i, op in enumerate(spec["ops"]):
-        if op["op"] in ("new", "call", "cfg"):
+        if op["op"] in ("new", "call", "cfg", "aux"):
             m = ORA.mini_spec(spec, i)
             if m is not None:
                 refs[i] = ORA.reference(m)
